@@ -14,6 +14,9 @@ extra = {
  'f': '\nADDITIONAL REQUIREMENT: the defect must only show for a specific element/key TYPE or VALUE CLASS (for example: the zero value of the type, an empty string or empty collection as element, nil inside a container, NaN or negative zero, a value at an integer boundary, a non-ASCII rune or string, a rune vs an int32, an unsigned value above the signed range, a very long value, a repeated value) while the same operations on ordinary small ints or short ASCII strings stay correct.',
  'g': '\nADDITIONAL REQUIREMENT: put the defect into an OBSERVER / accessor / metadata path (for example GetSize, IsEmpty, GetCapacity, GetCollator, GetKeys, GetValues, GetIndex, Contains*, HasNext/HasPrevious, GetSlot, AsArray, String/FormatValue of a particular kind) or into a CONSTRUCTOR path, not into the central mutating method; it must be wrong only in a corner case.',
  'h': '\nADDITIONAL REQUIREMENT: make the defect STATE-DEPENDENT: it must only show AFTER a specific earlier operation on the same instance (for example after RemoveAll, after a sort/reverse/shuffle, after a call that panicked, after the capacity was reached once, after an iterator was taken, after a close) - the same later operation on a fresh instance is correct.',
+ 'i': '\nADDITIONAL REQUIREMENT: put the defect on an ERROR / BOUNDARY path: a call that must be refused (panic) is now accepted, or panics only after it has already changed part of the state, or a valid call exactly at a boundary (first/last index, slot 0 or size, exactly full, exactly empty, capacity 1, a range of length 0 or 1, the deepest allowed nesting) is now refused or treated as its neighbour. Calls well inside the valid range stay correct.',
+ 'j': '\nADDITIONAL REQUIREMENT: the defect must only show when TWO DIFFERENT collection kinds or API layers meet: a collection built from / compared with / merged with / formatted inside a collection of ANOTHER kind (a List from a Set or a Queue, a Catalog from a Map, a Stack inside a List, an Array as a Set element, an Association as a value), or the same operation reached through the module-level wrapper functions in v4/Module.go instead of the class in v4/collection. The same operation within one kind through the class API stays correct.',
+ 'k': '\nADDITIONAL REQUIREMENT: assume the maintainers already run a model-based random test for this property: up to 40 random operations on a small collection of small ints or short strings, every observer compared with a reference model after every step, plus a few thousand random inputs. Your change must SURVIVE such a test and still break the property for some realistic use: think of what such a test does not vary (rare argument combinations, sizes beyond a few dozen, long idle sequences, particular orders of construction, specific Unicode/number formats, interplay of three or more calls).',
  'c': '\nADDITIONAL REQUIREMENT: the change must be a one-token or one-line edit (an operator, a constant, an index expression, an omitted statement) somewhere OTHER than the function a reviewer would look at first; it must only matter for inputs that are large, deeply nested, or at a boundary.',
 }[variant]
 for pid in sys.argv[2:]:
